@@ -67,6 +67,7 @@ type Thread struct {
 	BlockPtr  Ptr
 	BlockMode byte
 	YieldDone bool
+	SkipSwitch bool
 	Region    int // access-log region (verifPar branch), 0 = main
 	Parent   int
 }
@@ -108,6 +109,9 @@ type State struct {
 	// Tainted: a feasibility check came back unknown on this path
 	Tainted bool
 	ForkDepth int
+	// Interleave: fork on context switches at lock operations (lock-granular schedule exploration)
+	Interleave bool
+	Switches   int
 	// ParStack: saved heaps for verifPar
 	nextTid int
 }
@@ -139,7 +143,7 @@ func (st *State) clone() *State {
 	n := &State{
 		Cur: st.Cur, PC: st.PC[:len(st.PC):len(st.PC)], ND: st.ND[:len(st.ND):len(st.ND)],
 		Notes: st.Notes[:len(st.Notes):len(st.Notes)], Access: st.Access[:len(st.Access):len(st.Access)],
-		NFresh: st.NFresh, Steps: st.Steps, LogOn: st.LogOn, Tainted: st.Tainted, nextTid: st.nextTid, ForkDepth: st.ForkDepth,
+		NFresh: st.NFresh, Steps: st.Steps, LogOn: st.LogOn, Tainted: st.Tainted, nextTid: st.nextTid, ForkDepth: st.ForkDepth, Interleave: st.Interleave, Switches: st.Switches,
 	}
 	n.Heap = make(map[*Obj]Val, len(st.Heap))
 	for k, v := range st.Heap {
